@@ -50,6 +50,10 @@ func init() {
 			{ID: "C07-R25", Title: "loaded code entries are fresh", Floor: 2, Run: loadedCodeEntriesAreFresh},
 			{ID: "C07-R26", Title: "configuration is written by options only", Floor: 1, Run: configurationIsWrittenByOptionsOnly},
 			{ID: "C07-R27", Title: "tables filled while running are forgotten with the code", Floor: 2, Run: tablesFilledWhileRunningAreForgottenWithTheCode},
+			{ID: "C07-R28", Title: "shared state is enumerated (shared with C09-R18)", Floor: 1, Run: sharedStateIsEnumerated},
+			{ID: "C07-R29", Title: "reload re-points every function of the reloaded code, whatever its nesting depth (shared with C18-R3)", Floor: 2, Run: c18r3},
+			{ID: "C07-R30", Title: "a refused invocation writes nothing to the VM (shared with C06-R22)", Floor: 8, Run: refusedInvocationsWriteNothing},
+			{ID: "C07-R31", Title: "options that are refused are rolled back", Floor: 3, Run: refusedOptionsAreRolledBack},
 		},
 	})
 }
